@@ -89,7 +89,7 @@ Print Assumptions C01_effect_is_failure_free_callback.
 Theorem C01_adv_ok_reads : forall c p r a tr, adv_ok c (TStore p r a :: tr) ->
   (exists u view pers now pl tr', tr = TUser u view pers now pl :: tr' /\ expl_ctl view r) \/
   (exists k key res lk u view pers now z tr', tr = TLookup k key res lk :: TUser u view pers now (URet z) :: tr' /\ expl_adv c u view z r) \/
-  r_ver r = 1 \/ (exists k, In k tr /\ src_of k r).
+  r_ver r = 1 \/ (exists k, In k tr /\ src_of c k r).
 Proof.
   intros c p r a tr H. inversion H as [|t tr' Hn Hr|p' r' a' tr' Hs Hr|p' r' a' u view pers now pl tr' Hu He Hr|p' r' a' k key res lk u view pers now z tr' He Hr]; subst.
   - destruct Hn.
@@ -115,9 +115,10 @@ Print Assumptions C01_retries_do_not_change_the_outcome.
 From WF Require Import proofs.HistVersions proofs.Determined.
 Theorem C01_every_write_is_the_failure_free_write : forall c ops, hist_ok ops ->
   forall p r a, In (TStore (Some p) r a) (trace_of c ops) ->
-  (r_status r = r_status p /\ r_obj r = r_obj p) \/
-  (r_state r = RSDataDeleted /\ r_status r = r_status p) \/
-  (exists u b mark, configured c u b (r_status p) /\
+  (r_status r = r_status p /\ r_obj r = r_obj p /\ r_state r <> RSDataDeleted) \/
+  (r_state r = RSDataDeleted /\ r_status r = r_status p /\ r_obj r = scrub_obj c (r_obj p)) \/
+  ((r_state r = RSRunning \/ r_state r = RSCompleted) /\
+   exists u b mark, configured c u b (r_status p) /\
      final_beh b (obj_seed (r_obj p)) = (mark, ARet (r_status r)) /\
      r_obj r = (if mark then mark_obj (r_obj p) (r_status p) else r_obj p)).
 Proof. exact every_write_is_failure_free. Qed.
@@ -129,7 +130,7 @@ Theorem C01_history_is_the_failure_free_path : forall c ops, hist_ok ops ->
   forall h1 x h2, w_hist (fst (run_ops c ops)) = h1 ++ x :: h2 ->
   match lastrun h1 x with
   | None => r_ver x = 1 /\ r_state x = RSInitiated /\ is_valid (ec_graph c) (r_status x) = true
-  | Some p => kept p x \/ scrubbed p x \/ advanced c p x
+  | Some p => kept p x \/ scrubbed c p x \/ advanced c p x
   end.
 Proof. exact history_is_failure_free_path. Qed.
 Print Assumptions C01_history_is_the_failure_free_path.
